@@ -108,6 +108,7 @@ class Verifier:
         self.numeric = numeric
         self.trace = {"inlined": set(), "handlers": set(), "assumed": set()}
         self.functions_under_contract: dict[str, str] = {}
+        self.result_builders: dict[str, object] = {}
         self.ann_resolver = None
 
     # ------------------------------------------------------------------ loading
@@ -215,7 +216,10 @@ class Verifier:
                 tagv = arg.fields.get("type") if isinstance(arg, Obj) else None
                 if isinstance(tagv, Str) and tagv.concrete and tagv.c in c.result_switch[1]:
                     rspec = c.result_switch[1][tagv.c]
-            res = sb.make(rspec, "res_" + c.name + ("_" + rspec.replace(":", "_").replace(".", "_")[-24:] if pure_terms is not None else "")) if rspec else NONE
+            if c.attrs.get("result_builder"):
+                res = ver.result_builders[c.attrs["result_builder"]](ex, node, suffix, ctx)
+            else:
+                res = sb.make(rspec, "res_" + c.name + ("_" + rspec.replace(":", "_").replace(".", "_")[-24:] if pure_terms is not None else "")) if rspec else NONE
             for w in sb.wf:
                 ex.bg.append(w)
             if "ensures" in c.funcs:
